@@ -836,8 +836,8 @@ class HttpResponseParser(HttpParser[RawResponseMessage]):
             raise BadStatusLine(line)
         status_i = int(status)
 
-        # A bare LF (or another control character) is not part of a reason-phrase.
-        if not self.lax and _FIELD_VALUE_FORBIDDEN_CTL_RE.search(reason):
+        # A bare LF (or another control character) is not part of a status line.
+        if not self.lax and _FIELD_VALUE_FORBIDDEN_CTL_RE.search(line):
             raise BadStatusLine(line)
 
         # read headers
